@@ -484,6 +484,18 @@ fn run_part(run: &mut Run) {
             run.note(format!("full alphabet: {} actions ({} stacks of depth <= {depth} x {} operations)", m.acts.len(), stacks(depth, false).len(), ops(false).len()));
             run.explore("single-actions", "every action (adapter stack of depth<=2 quick/3 thorough over 25 adapters x 44 operations) from 16 initial states (4 parent boxes x default/native fill x blank/pre-filled)", &m, inits(), 1);
         }
+        "nested3" => {
+            // depth-3 nestings over the reduced adapter alphabet x the full operation list
+            let mut acts = vec![];
+            for s in stacks(3, true).into_iter().filter(|s| s.len() == 3) {
+                for o in ops(false) {
+                    acts.push(Act { stack: s.clone(), op: o });
+                }
+            }
+            let m = WithAlphabet { acts };
+            run.note(format!("depth-3 stacks over the reduced adapter alphabet: {} actions", m.acts.len()));
+            run.explore("single-actions-depth-3", "every (depth-3 adapter stack over the reduced alphabet of 10 adapters, operation of 44) from the 16 initial states", &m, inits(), 1);
+        }
         "histories" => {
             let m = WithAlphabet { acts: alphabet(tier.pick(1, 2), true) };
             run.note(format!("reduced alphabet: {} actions", m.acts.len()));
@@ -505,7 +517,7 @@ fn main() {
         level: "model_checking",
         rule: "explicit-state BFS: a state is the pixel map of the innermost parent; a transition applies one (adapter stack, operation) through the real adapters and trait defaults and is compared with the set-theoretic reference model (offset addition, clip-set intersection, colour-map composition, row-major zip with the stream); distinct_nontrivial counts distinct (initial state, canonical parent map) states",
         assumptions: &["Rectangle::intersection/translate are used by the model as trusted primitives (C16 decides them)", "bounded to the listed adapters, operations and history depth"],
-        parts: |_| vec![PartSpec::new("single", "verif"), PartSpec::new("histories", "verif")],
+        parts: |_| vec![PartSpec::new("single", "verif"), PartSpec::new("nested3", "verif"), PartSpec::new("histories", "verif")],
         run_part,
         required_classes: |_| vec!["clip-cuts-operation", "clip-removes-everything", "colour-converted", "nested", "no-adapter", "short-stream", "endless-stream", "cropped", "translated", "clear", "trait-default-fill", "empty-parent-box"],
         crash_is_verdict: false,
